@@ -22,7 +22,7 @@ CONSTANTS MaxNodes = 0 MaxPert = 0 Rich = FALSE MaxBad = 20000
 CHECK_DEADLOCK FALSE
 POSTCONDITION Post
 """
-API = {"missed-difference": "alt.Diff", "spurious-path": "alt.Diff", "compare-mismatch": "alt.Compare",
+API = {"missed-difference": "alt.Diff", "spurious-path": "alt.Diff", "ignored-path-returned": "alt.Diff", "compare-mismatch": "alt.Compare",
        "match-wrong": "alt.Match"}
 
 
@@ -204,7 +204,7 @@ def main(ctx):
                        "distinct_nontrivial = number of distinct pairs (a, b) with a different from b; observations = Diff+Compare result pairs judged by TLC.")
     ctx.assumptions += [
         "int versus numerically equal float may or may not be reported (numeric width is read either way)",
-        "differences covered by an ignore path may or may not be returned; completeness is not demanded where an ignore path reaches below the differing location",
+        "an ignore path ignores the location it names (nil = any single segment) and everything below; a returned path it covers is a deviation; completeness is waived only for a container-kind/presence difference of which the ignore path names an existing descendant",
         "Match: a null fingerprint member matches an absent target member (documented obligation); longer target array, null fingerprint elements beyond the target array's end, int-vs-equal-float are open",
         "values: |int| < 2^63 incl. near neighbours beyond 2^53 and at both ends of int64, compared exactly as decimal digit records (uint64 beyond int64 excluded: ojg normalises to int64), no NaN/Inf/-0, times differ by whole seconds (TimeTolerance not modelled)",
     ]
